@@ -9,6 +9,7 @@
  *   json   config_parse_json                         12 tokens (braces, keys known/unknown, quoted/bare, colon, comma, values,
  *                                                    brackets, a lone quote)
  *   jsgf   jsgf_parse_string + jsgf_build_fsg        20 tokens after a fixed "#JSGF V1.0; grammar g;" header
+ *   dict   dict_init_s3file (en-us phone set)         16 lines: 1 .. 200 phones per line, comments, alternates, unknown phones
  */
 #include <stdio.h>
 #include <stdlib.h>
@@ -16,7 +17,9 @@
 #include <setjmp.h>
 #include <signal.h>
 #include <unistd.h>
+#include <soundswallower/bin_mdef.h>
 #include <soundswallower/configuration.h>
+#include <soundswallower/dict.h>
 #include <soundswallower/err.h>
 #include <soundswallower/fsg_model.h>
 #include <soundswallower/jsgf.h>
@@ -25,7 +28,7 @@
 
 static jmp_buf exit_jmp;
 static int exit_armed;
-static char cur[600];
+static char cur[8192];
 static const char *cur_fmt = "?";
 static long cases, distinct, fails, accepted;
 
@@ -40,7 +43,7 @@ static void show(char *out, size_t n)
 }
 static void report(const char *what)
 {
-    char t[1300];
+    static char t[17000];
     show(t, sizeof t);
     printf("FAIL %s input \"%s\": %s\n", cur_fmt, t, what);
     fflush(stdout);
@@ -128,6 +131,29 @@ static void run_jsgf(const char *text, size_t len)
     free(exact);
 }
 
+static bin_mdef_t *mdef;
+static void run_dict(const char *text, size_t len)
+{
+    char *exact = malloc(len ? len : 1);
+    s3file_t *s;
+    dict_t *d;
+    memcpy(exact, text, len);
+    s = s3file_init(exact, len);
+    d = dict_init_s3file(NULL, mdef, s, NULL);
+    s3file_free(s);
+    if (d) {
+        int w;
+        accepted++;
+        for (w = 0; w < dict_size(d); w++) {
+            int p;
+            if (dict_wordid(d, dict_wordstr(d, w)) < 0) { report("a word of the returned dictionary cannot be looked up"); fails++; }
+            for (p = 0; p < dict_pronlen(d, w); p++) if (dict_pron(d, w, p) < 0 || dict_pron(d, w, p) >= bin_mdef_n_ciphone(mdef)) { report("returned dictionary has a phone id out of range"); fails++; }
+        }
+        dict_free(d);
+    }
+    free(exact);
+}
+
 typedef void (*run_f)(const char *, size_t);
 static void enumerate(const char *fmt, run_f run, const char *prefix, const char *const *tok, int ntok, int maxlen)
 {
@@ -137,7 +163,7 @@ static void enumerate(const char *fmt, run_f run, const char *prefix, const char
         for (i = 0; i < len; i++) idx[i] = 0;
         for (;;) {
             size_t o = (size_t)snprintf(cur, sizeof cur, "%s", prefix);
-            for (i = 0; i < len; i++) o += (size_t)snprintf(cur + o, sizeof cur - o, "%s", tok[idx[i]]);
+            for (i = 0; i < len && o + strlen(tok[idx[i]]) + 1 < sizeof cur; i++) o += (size_t)snprintf(cur + o, sizeof cur - o, "%s", tok[idx[i]]);
             cases++;
             if (len >= 2) distinct++;
             alarm(10);
@@ -162,8 +188,22 @@ int main(int argc, char **argv)
         "TRANSITION 0 1 x a\n", "TRANSITION 0\n", "TRANSITION 0 1", "FSG_END\n", "# c\n", "\n" };
     static const char *const JSON[] = { "{", "}", "\"samprate\"", "samprate", ":", ",", "16000", "\"x\"", "[", "]", "\"", " nfft" };
     static const char *const JSGF[] = { "public ", "<s> ", "= ", "a ", "| ", "( ", ") ", "[ ", "] ", "* ", "+ ", ";\n", "/2/ ", "{t} ", "<NULL> ", "<y> ", "import <x.y>;\n", "\"", "/", "<" };
+    static char LONG7[64], LONG15[128], LONG40[256], LONG200[1200];
+    static const char *DICT[16];
     err_set_loglevel(ERR_FATAL + 1);
     lm = logmath_init(1.0001, 0, 1);
+    {
+        /* pronunciation lines with 1 .. 200 phones (the reader sizes its per-line buffer from earlier lines) */
+        char path[600]; int k, n = 0;
+        struct { char *buf; size_t sz; int nph; const char *w; } L[4] = { { LONG7, sizeof LONG7, 7, "seven" }, { LONG15, sizeof LONG15, 15, "fifteen" }, { LONG40, sizeof LONG40, 40, "forty" }, { LONG200, sizeof LONG200, 200, "twohundred" } };
+        for (k = 0; k < 4; k++) { size_t o = (size_t)snprintf(L[k].buf, L[k].sz, "%s", L[k].w); int q; for (q = 0; q < L[k].nph; q++) o += (size_t)snprintf(L[k].buf + o, L[k].sz - o, " %s", q % 2 ? "AH" : "B"); snprintf(L[k].buf + o, L[k].sz - o, "\n"); }
+        DICT[n++] = "a AH\n"; DICT[n++] = "b B AH\n"; DICT[n++] = "b(2) B AH B\n"; DICT[n++] = "## comment\n"; DICT[n++] = ";; comment\n"; DICT[n++] = "\n";
+        DICT[n++] = LONG7; DICT[n++] = LONG15; DICT[n++] = LONG40; DICT[n++] = LONG200;
+        DICT[n++] = "x XX\n"; DICT[n++] = "nophones\n"; DICT[n++] = "c K AH"; DICT[n++] = "d(3) D\n"; DICT[n++] = " \t e EH\n"; DICT[n++] = "a AH\n";
+        snprintf(path, sizeof path, "%s/model/en-us/mdef", getenv("SSW_REPO") ? getenv("SSW_REPO") : "/repo");
+        mdef = bin_mdef_read(NULL, path);
+        if (!mdef) { printf("FAIL cannot read %s\n", path); return 1; }
+    }
     signal(SIGABRT, on_signal); signal(SIGALRM, on_signal); signal(SIGSEGV, on_signal);
     __sanitizer_set_death_callback(on_asan_death);
 
@@ -172,6 +212,8 @@ int main(int argc, char **argv)
     enumerate("fsg", run_fsg, "FSG_BEGIN g\nNUM_STATES 2\nSTART_STATE 0\nFINAL_STATE 1\n", FSG, (int)(sizeof FSG / sizeof FSG[0]), thorough ? 4 : 3);
     enumerate("fsg", run_fsg, "FSG_BEGIN g\n", FSG, (int)(sizeof FSG / sizeof FSG[0]), thorough ? 5 : 4);
     printf("SAMPLE fsg: every sequence of <= %d of 21 tokens after \"FSG_BEGIN g\", e.g. \"NUM_STATES 4294967298 / START_STATE 0 / FINAL_STATE 1 / TRANSITION 0 5 0.5 a\"\n", thorough ? 5 : 4);
+    enumerate("dict", run_dict, "", DICT, 16, thorough ? 4 : 3);
+    printf("SAMPLE dict: every sequence of <= %d of 16 dictionary lines (1 .. 200 phones, comments, alternates, unknown phones, no final newline) through dict_init_s3file with the en-us phone set\n", thorough ? 4 : 3);
     enumerate("json", run_json, "", JSON, (int)(sizeof JSON / sizeof JSON[0]), thorough ? 6 : 5);
     printf("SAMPLE json: every sequence of <= %d of 12 tokens, e.g. samprate:16000, nfft\n", thorough ? 6 : 5);
     enumerate("jsgf", run_jsgf, "#JSGF V1.0;\ngrammar g;\n", JSGF, (int)(sizeof JSGF / sizeof JSGF[0]), thorough ? 5 : 4);
